@@ -405,13 +405,28 @@ def run(ck, prog, ctx):
     fbr = prog.body(codec.ONT + "from_bytes")
     if fbr is not None:
         heads = []
-        for bi, t in fbr.calls():
-            g = prog.bodies.get(t.callee.res) if t.callee.res else None
-            if g is None or g.kind not in ("Fn", "AssocFn") or t.dest is None or not t.dest.is_local() or fbr.locals[t.dest.local]["s"] != "u32" or len(t.args) != 1:
-                continue
-            if params_of(pvn.of_operand(fbr, t.args[0]), fbr.id) != {1}:
-                continue
-            heads.append((bi, t, g))
+
+        def u32_reads(b_, from_params):
+            out = []
+            for bi_, t_ in b_.calls():
+                g_ = prog.bodies.get(t_.callee.res) if t_.callee.res else None
+                if g_ is None or g_.kind not in ("Fn", "AssocFn") or t_.dest is None or not t_.dest.is_local() or b_.locals[t_.dest.local]["s"] != "u32" or len(t_.args) != 1:
+                    continue
+                if params_of(pvn.of_operand(b_, t_.args[0]), b_.id) & from_params and params_of(pvn.of_operand(b_, t_.args[0]), b_.id) <= from_params | {p for p in range(1, b_.nargs + 1) if b_.locals[p]["s"] in ("usize",)}:
+                    out.append((bi_, t_, g_))
+            return out
+        heads = u32_reads(fbr, {1})
+        if not heads:
+            # the header is read by a private helper (`section_payload(&bytes, start)`): each call of the helper is a header position
+            for bi, t in fbr.calls():
+                h = prog.bodies.get(t.callee.res) if t.callee.res else None
+                if h is None or h.kind not in ("Fn", "AssocFn") or h.reachable or h.natural_loops():
+                    continue
+                hp = {i + 1 for i, a in enumerate(t.args) if params_of(pvn.of_operand(fbr, a), fbr.id) == {1} and "usize" != h.locals[i + 1]["s"]}
+                if not hp:
+                    continue
+                for _, t2, g2 in u32_reads(h, hp):
+                    heads.append((bi, t, g2))
         for n, (bi, t, g) in enumerate(heads):
             demand, fixed_end = layout.length_demand(prog, g, 1)
             if fixed_end is None:
@@ -425,4 +440,5 @@ def run(ck, prog, ctx):
             ok = demand <= room and fixed_end <= room
             ck.ob("LAYOUT", "framing-reader/header/%d" % n, ok, "Ontology::from_bytes reads a section length with %s, which reads %d byte(s) and demands an input of at least %d byte(s)%s" % (
                 g.short, fixed_end, max(demand, fixed_end), "" if ok else (": an empty last section leaves exactly the 4 header bytes, so the library's own output is rejected" if can_be_last else ": more than this header and the next one")), where=fbr.where(t.line))
-        ck.floor("LAYOUT", "section headers read by Ontology::from_bytes", len(heads), 3)
+        if not heads:
+            ck.undecided("LAYOUT", "framing-reader/header", "the reads of the section lengths are not recognised in Ontology::from_bytes or a private helper it calls", where=fbr.where())
